@@ -89,6 +89,8 @@ package handler
 // handed to ServeHTTP exactly once instead.
 //@ func (*timeoutHandler).ServeHTTP$1
 //@   prop C02
+//@   observe PanicNil = panicnil(ServeHTTP)
+//@   replay handler_panicnil
 //@   may-panic ServeHTTP
 //@   ensures [runs-handler-on-buffer] calls(h.handler.ServeHTTP) == 1 && unbox(arg(ServeHTTP, 0), ptr(timeoutWriter)) == tw && arg(ServeHTTP, 1) == r
 //@   ensures [done-or-panic] panicked(ServeHTTP) ==> calls("send") == 1 && calls("close") == 0
@@ -137,6 +139,8 @@ package handler
 // RecoverHandler: a panic of the inner chain is answered with 500 and does not propagate.
 //@ func RecoverHandler$1
 //@   prop C02
+//@   observe PanicNil = panicnil(ServeHTTP)
+//@   replay handler_panicnil
 //@   opaque Error, Sprintf, Stack
 //@   may-panic ServeHTTP
 //@   nopanic
